@@ -37,7 +37,7 @@ for (e, part, fns, d) in (
     ('h_lfq_enqueue_frozen', 'PART_LFQ', ('_cds_lfq_enqueue_rcu',), 'rculfqueue enqueue with the tail lagging behind a suspended enqueuer: helps the tail forward, appends, completes (retry loop bounded, unwinding assertion)'),
     ('h_lfq_dequeue_frozen', 'PART_LFQ', ('_cds_lfq_dequeue_rcu',), 'rculfqueue dequeue from the same states: completes with the oldest real node'),
 ):
-    OBLIGATIONS.append(Ob(name='C17.O4.frozen.' + e[2:], harness=FZ, entry=e, defines=(part,), unwind=5, min_covers=2, checks=CKP, functions=fns, timeout=300, desc=d))
+    OBLIGATIONS.append(Ob(name='C17.O4.frozen.' + e[2:], harness=FZ, entry=e, defines=(part,), unwind=5, min_covers=2, checks=CKP, functions=fns, timeout=300, native=True, desc=d))
 # ---- O2 / O5: obligations shared with the structure properties, selected here for what they say about PROGRESS:
 #  * loop contracts with a decreases clause on unbounded chains (termination of the solo run, chains may contain logically
 #    removed nodes = suspended deletions that the operation helps to unlink), interference-token variants (lock-freedom),
